@@ -7,6 +7,7 @@ os.pipe() pairs, the real Redirector reads them through the real selector of
 the virtual-time loop, and the configured stream is a collecting object
 passed through the documented {'stream': obj} form.
 """
+import json
 import os
 
 from vfw.history import History
@@ -190,8 +191,12 @@ def execute(case):
                 w.check()
                 w.run_idle()
             elif kind == 'req':
-                w.request(op[1], dict(op[2]))
+                w.request(op[1], json.loads(json.dumps(op[2])))
                 classes.add('sibling-restart')
+                if op[1] == 'set':
+                    classes.add('stream-option-set')
+                if op[1] == 'restart':
+                    w.drain(30.0)
             elif kind == 'adv':
                 w.advance(op[1])
             if w.livelock:
@@ -219,7 +224,11 @@ def execute(case):
             w.request('set', {"name": "w", "options": {"numprocesses": 2},
                               "waiting": True})
             w.drain()
+            w.request('start', {"name": "w", "match": "simple",
+                                "waiting": True})
+            w.drain()
             w.full_check()
+            baseline_ok = len(w.eff_live('w')) == 2
             fds_before = daemon_fds()
             for g in range(case["generations"]):
                 for pid in w.eff_live('w'):
@@ -232,7 +241,8 @@ def execute(case):
             w.full_check()
             fds_after = daemon_fds()
             classes.add('generations')
-            if fds_after > fds_before:
+            if baseline_ok and len(w.eff_live('w')) == 2 and \
+                    fds_after > fds_before:
                 viols.append(Violation(
                     'C17:fd-leak', 'open descriptors went from %d to %d over '
                     '%d worker generations' % (fds_before, fds_after,
@@ -267,6 +277,12 @@ def _strategy():
         st.just(['check']),
         st.tuples(st.just('req'), st.sampled_from(['incr', 'decr']),
                   st.just({"name": "w", "nb": 1})).map(list),
+        st.tuples(st.just('req'), st.just('set'), st.sampled_from(
+            [{"name": "w", "options": {"stderr_stream.note": "x"}},
+             {"name": "w", "options": {"stdout_stream.note": "y"}}])
+                  ).map(list),
+        st.tuples(st.just('req'), st.just('restart'),
+                  st.just({"name": "w", "match": "simple"})).map(list),
         st.tuples(st.just('adv'), st.sampled_from([0.05, 0.3])).map(list))
     return st.fixed_dictionaries({
         "np": st.integers(1, 4),
